@@ -301,7 +301,6 @@ Section Del.
         rewrite (proj2 (wf_cur_frag _ _ Hc)). rewrite (find_frag_In _ u Hnd' Hu). reflexivity. }
       destruct (entry_outcome _ c Hc) as [Hk' _ | Hk' Hg _ | fi i dv Hk' HS Hw Hm Hb]; rewrite Hk in Hk'; inversion Hk'; subst.
       - apply incl_refl.
-      - contradiction.
       - intros o Ho. cbn [dels_of set_del f_del snd]. apply memN_In. rewrite Hm. apply memN_In in Ho. rewrite Ho. reflexivity.
     Qed.
   End Core.
